@@ -34,7 +34,7 @@ ASSUMPTIONS = [
 MOD = "dagrt.expression"
 
 
-def check(run, P):
+def _check_main(run, P):
     run.rule("C17.type", "map_call: type agreement is tested first", minimum=1)
     run.rule("C17.arity", "positional pairing behind a length test, keyword pairing "
              "behind a key-set test, keyword values in sorted key order on both sides",
@@ -334,3 +334,9 @@ def _match(run, P):
     run.ob("C17.nomatch", f, idx[0].ast if idx else f.node, ok,
            construct="records[0] is dominated by 'if not records: raise ValueError'",
            why="no match must raise the documented error, not IndexError or a wrong substitution")
+
+
+def check(run, P):
+    _check_main(run, P)
+    from . import generic
+    generic.lints(run, P, "C17")
